@@ -1,17 +1,22 @@
 #!/usr/bin/env python3
 """Re-runs the quick checks against every seeded change (seeded/*/patch.diff
 applied to a scratch worktree of /repo, removed afterwards).
-  tools/run_seeds.py [--only name-substring] [--out file]"""
+  tools/run_seeds.py [--only name-substring] [--round a|b|c] [--keep] [--out file]"""
 import glob, json, os, subprocess, sys, tempfile
 ROOT = os.path.dirname(os.path.dirname(os.path.abspath(__file__)))
 args = sys.argv[1:]
 only = args[args.index("--only") + 1] if "--only" in args else ""
+import re
+rnd = args[args.index("--round") + 1] if "--round" in args else None
 out = args[args.index("--out") + 1] if "--out" in args else \
     os.path.join(ROOT, "tools", "seeds_results.json")
 results = []
 for d in sorted(glob.glob(os.path.join(ROOT, "seeded", "*"))):
     name = os.path.basename(d)
     if only and only not in name:
+        continue
+    if rnd is not None and not re.match(
+            r"^C\d\d%s-" % ("" if rnd == "a" else rnd), name):
         continue
     meta = json.load(open(os.path.join(d, "meta.json")))
     props = meta.get("detected_by") or [meta.get("breaks_property")]
